@@ -6,6 +6,7 @@ import (
 	"math/rand"
 	"os"
 	"path/filepath"
+	"runtime"
 	"sort"
 	"strings"
 	"sync"
@@ -37,7 +38,7 @@ type step struct {
 }
 
 type stats struct {
-	behaviours, diverged, completeSteps, totalSteps, reruns, onErr, selfQuiescentEarly int
+	behaviours, diverged, completeSteps, totalSteps, reruns, onErr, selfQuiescentEarly, raced int
 	divergedAt                                                                           map[string]int
 }
 
@@ -78,6 +79,7 @@ steps:
 			// the model says the worker calls Execute(id, occ) now: wait until the real one has
 			var got *gate
 			other := false
+			t0 := time.Now()
 			ok := y.waitFor(fmt.Sprintf("Execute(%d,%d) [%s step %d]", s.ID, s.Occ, name, i+1), func() bool {
 				for _, g := range y.gates {
 					if g.used {
@@ -96,15 +98,20 @@ steps:
 				}
 				return false
 			}, func() bool {
-				// nothing is gated and the scheduler says it has nothing to do: it will never come
-				y.mu.Lock()
-				open := y.openGates()
-				y.mu.Unlock()
-				if open == 0 && y.selfQuiescent() {
-					st.selfQuiescentEarly++
+				// It does not show up.  Either the scheduler has nothing due by its own account (When() in the
+				// future or zero, read under its lock, and stays so), or it is taking very long.  Stop following
+				// the behaviour instead of guessing: everything is let run in the drain below and the
+				// specification judges the End line ("nothing due was left behind").  A slow but correct
+				// scheduler still yields an accepted trace; one that lost the occurrence does not.
+				el := time.Since(t0)
+				if el > 4*time.Second {
 					return true
 				}
-				return false
+				if el < 300*time.Millisecond || !y.selfQuiescent() {
+					return false
+				}
+				time.Sleep(50 * time.Millisecond)
+				return y.selfQuiescent()
 			})
 			if !ok || other || got == nil {
 				diverged = "Start"
@@ -160,6 +167,62 @@ steps:
 		y.debugState(y.where)
 	}
 
+	y.finish(name, beh, done, diverged, st)
+}
+
+// replayRace uses the same behaviour as a script of environment moves but does NOT wait for the scheduler between
+// them: API calls, clock jumps and execution ends race with the loop and the workers as they may.  Whatever happens
+// is recorded at the moment it happens and the trace specification (which places the unlogged steps freely) decides.
+func replayRace(t *rt.Trace, name string, beh []step, rng *rand.Rand, st *stats) {
+	wof := beh[0].Wof
+	t.Reset(rt.M{"b": name, "shared": wof[0] == wof[1], "race": true})
+	y := newSys(t, wof, func() bool { return rng.Intn(5) == 0 })
+	done := 0
+	for i, s := range beh[1:] {
+		y.where = fmt.Sprintf("%s (race) step %d %+v", name, i+1, s)
+		switch s.A {
+		case "Call":
+			if s.T == "S" {
+				y.callSchedule(s.ID, s.K, s.E, s.O, s.Last)
+			} else {
+				y.callRelease(s.ID)
+			}
+		case "Adv":
+			y.advance(s.D)
+		case "Start", "Ckpt":
+			// sometimes give the scheduler a moment, sometimes not
+			switch rng.Intn(4) {
+			case 0:
+				time.Sleep(time.Duration(rng.Intn(300)) * time.Microsecond)
+			case 1:
+				runtime.Gosched()
+			}
+		case "Finish":
+			var g *gate
+			y.mu.Lock()
+			for _, c := range y.gates {
+				if !c.released {
+					g = c
+					break
+				}
+			}
+			if g != nil {
+				g.released = true
+			}
+			y.mu.Unlock()
+			if g != nil {
+				g.ch <- s.Res
+			}
+		}
+		done++
+	}
+	st.raced++
+	y.finish(name, beh, done, "", st)
+}
+
+// finish: drain (let everything that is due run to completion), ask the scheduler whether it is done, log End, stop.
+func (y *sys) finish(name string, beh []step, done int, diverged string, st *stats) {
+	t := y.t
 	y.where0 = y.where
 	y.where = name + " drain"
 	// drain: let everything that is due run to completion, then ask the scheduler whether it is done
@@ -233,10 +296,13 @@ func loadBehaviours(dir string) (names []string, behs [][]step) {
 
 // Run replays every behaviour under beh=<dir> (TLC -simulate output) on real schedulers, in parallel lanes.
 func Run(r *rt.Run) error {
-	dir, lanes := "", 8
+	dir, lanes, race := "", 8, 4
 	for _, a := range r.Args {
 		if strings.HasPrefix(a, "beh=") {
 			dir = strings.TrimPrefix(a, "beh=")
+		}
+		if strings.HasPrefix(a, "race=") {
+			fmt.Sscanf(strings.TrimPrefix(a, "race="), "%d", &race)
 		}
 		if strings.HasPrefix(a, "lanes=") {
 			fmt.Sscanf(strings.TrimPrefix(a, "lanes="), "%d", &lanes)
@@ -267,7 +333,11 @@ func Run(r *rt.Run) error {
 			defer wg.Done()
 			rng := rand.New(rand.NewSource(r.Seed*1000 + int64(l)))
 			for i := l; i < len(behs); i += lanes {
-				replay(traces[l], names[i], behs[i], rng, sts[l])
+				if race > 0 && i%race == race-1 {
+					replayRace(traces[l], names[i], behs[i], rng, sts[l])
+				} else {
+					replay(traces[l], names[i], behs[i], rng, sts[l])
+				}
 				key, _ := json.Marshal(behs[i])
 				traces[l].Distinct(string(key))
 			}
@@ -283,12 +353,15 @@ func Run(r *rt.Run) error {
 		tot.reruns += s.reruns
 		tot.onErr += s.onErr
 		tot.selfQuiescentEarly += s.selfQuiescentEarly
+		tot.raced += s.raced
 		for k, v := range s.divergedAt {
 			tot.divergedAt[k] += v
 		}
 	}
 	r.Extra["behaviours_replayed"] = tot.behaviours
 	r.Extra["behaviours_cut_short_by_a_benign_race_or_deviation"] = tot.diverged
+	r.Extra["behaviours_replayed_without_waiting_(race_mode)"] = tot.raced
+	r.Extra["cut_short_at"] = tot.divergedAt
 	r.Extra["steps_replayed"] = tot.completeSteps
 	r.Extra["steps_in_behaviours"] = tot.totalSteps
 	r.Extra["observation_occurrence_reruns_across_epochs"] = tot.reruns
